@@ -9,6 +9,8 @@ import J5V.Props.C06
 #print axioms J5V.Props.C06.C06_linear
 #print axioms J5V.Props.C06.C06_depth_le_size
 #print axioms J5V.Props.C06.C06_itemsOk_needed
+#print axioms J5V.Props.C06.C06_query_steps
+#print axioms J5V.Props.C06.C06_query_linear
 #print axioms J5V.Props.C06.C06_src_decode_switch_coverage
 #print axioms J5V.Props.C06.C06_src_scalar_kinds_covered
 #print axioms J5V.Props.C06.C06_src_any_depth_bound
